@@ -24,7 +24,7 @@ META = {
     ],
     "bounds": {
         "quick": "family F (fixed core list: every modifier type alone, every pair on one sample, sharing across samples/channels/types, absent samples, zero-uncertainty bins, POI positions) + 24 seeded random shapes (<=3 channels x <=3 samples x <=3 bins x <=4 modifiers/sample); per shape 2 settings covering {code0,code2,code4p}x{code1,code4} x clip on/off x batch None/1/2; all parameters and data symbolic over R",
-        "thorough": "family F x all 36 settings + 200 seeded random shapes x 3 settings",
+        "thorough": "family F x all 36 settings + 500 seeded random shapes (the last 300 with up to 4 bins and 5 modifiers per sample) x 3 settings",
     },
     "stubs": [],
     "outside_claim": ["jax/pytorch/tensorflow kernels", "floating-point rounding", "shapes beyond the stated family"],
@@ -33,7 +33,7 @@ META = {
 
 def _family(tier, seed):
     fam = shapes.family_core()
-    fam += shapes.family_plus(seed, 24 if tier == "quick" else 200)
+    fam += shapes.family_plus(seed, 24 if tier == "quick" else 500)
     return fam
 
 
